@@ -13,6 +13,7 @@ Each returns {"ok", "obligations", "discharged", "states", "transitions", "cases
 Results are cached by the hash of the specification files involved (and, for the replay, of the harness binary).
 A timeout or a tool failure raises C.ToolError; "ok": False is only reported for a refuted obligation.
 """
+import itertools
 import json, os, re, shutil, time
 from concurrent.futures import ThreadPoolExecutor
 from lib import common as C
@@ -29,11 +30,14 @@ def _spec(name):
 # ---------------------------------------------------------------------------
 # Apalache
 
+_APA_SEQ = itertools.count()
+
+
 def apalache(spec_path, init, invs, length, tag):
     """One `apalache-mc check`.  Returns {"outcome": "NoError" | "Error", "wall", "cex": [states] | None, "out"}.
     Anything else (type error, timeout, crash) raises ToolError."""
     os.makedirs(WORK, exist_ok=True)
-    rd = os.path.join(WORK, "apa-%s-%d-%d" % (tag, os.getpid(), int(time.time() * 1000) % 100000000))
+    rd = os.path.join(WORK, "apa-%s-%s-%d-%d" % (tag, re.sub(r"\W", "", init), os.getpid(), next(_APA_SEQ)))
     od = rd + "-out"
     cmd = ["timeout", str(APA_TIMEOUT), "apalache-mc", "check", "--init=" + init, "--inv=" + ",".join(invs),
            "--length=%d" % length, "--out-dir=" + od, "--run-dir=" + rd, spec_path]
